@@ -112,10 +112,6 @@ def register(reg):
   register_executor(reg)
   register_repeat(reg)
 
-  c = reg.contract('openhtf/util/threads.py', 'KillableThread.kill', props=['C12'])
-  c.ensures('kill_flag_set', 'self._killed.is_set()')
-  c.modifies('self._killed.flag')
-  c.trusted('verified under C12 (kill/run handshake); here only that it sets the kill flag and nothing else visible')
 
 
 def _exc_args(ex, st, made):
